@@ -2,6 +2,8 @@
 
 PM = "frequenz.sdk.microgrid._power_managing"
 FS = "frequenz.sdk.timeseries.formula_engine._formula_steps"
+CSM = "frequenz.sdk.microgrid._power_distributing._component_status"
+BT = f"{CSM}._battery_status_tracker:BatteryStatusTracker"
 
 REALS = "assume:python floats are treated as mathematical reals (rounding, NaN and overflow are not modelled)"
 EXTRACTION = ("extraction: the verified text is the function's AST re-read from /repo on every run; dropped: "
@@ -92,5 +94,30 @@ PROPS = {
                     "operands, the stack effect is exact; MetricFetcher.apply pushes 0.0 / NaN / base_value as documented.",
         assumptions=[EXTRACTION, "IEEE-754 binary64 with round-to-nearest-even as implemented by z3's FloatingPoint theory; "
                      "python float == C double"],
+    ),
+    "C16": dict(
+        modules=["pd_status"],
+        contracts=[f"{BT}._is_capacity_present", f"{BT}._no_critical_error", f"{BT}._no_critical_error#inverter",
+                   f"{BT}._is_battery_state_correct", f"{BT}._is_inverter_state_correct", f"{BT}._is_message_reliable",
+                   f"{BT}._handle_status_battery", f"{BT}._handle_status_inverter",
+                   f"{BT}._handle_status_battery_timer", f"{BT}._handle_status_inverter_timer",
+                   f"{BT}._get_current_status", f"{BT}._get_new_status_if_changed",
+                   f"{BT}._handle_status_set_power_result",
+                   f"{CSM}._blocking_status:BlockingStatus.block", f"{CSM}._blocking_status:BlockingStatus.unblock",
+                   f"{CSM}._blocking_status:BlockingStatus.is_blocked",
+                   f"{CSM}._component_status:ComponentPoolStatus.get_working_components"],
+        lemmas=[],
+        bounded=[],
+        level="proof",
+        explanation="All handlers of BatteryStatusTracker are synchronous (atomic steps). Each is verified: the per-stream flag is "
+                    "true exactly if the handled message is fresh, operational, relay closed, without critical error and with "
+                    "a capacity; expiry handlers clear it; the status is WORKING/UNCERTAIN only if both flags hold; "
+                    "UNCERTAIN iff blocked; BlockingStatus.block doubles up to the maximum and resets; notifications only "
+                    "on change; uncertain components only as fallback.",
+        assumptions=[EXTRACTION,
+                     "capacity is an IEEE double (NaN modelled); times are integer microseconds",
+                     "not under contract: the select() loop of _run (dispatch of each event to its handler, the staleness test "
+                     "before the expiry handlers, sending the notification) and ComponentPoolStatusTracker._update_status; "
+                     "freshness BETWEEN events rests on the library timers firing max_data_age after their last reset"],
     ),
 }
